@@ -90,6 +90,7 @@ struct Scn
 	int bystander_pair = -1; int bystander_udp_rx = -1, bystander_udp_tx = -1; int bystander_sent = 0;
 	bool after_intervention = false;
 	bool idle_reads = false;
+	bool early_io = false; // clients start reading and writing right after async_connect(), before the handshake completes
 	int variant = 0; // which flavour of an intervention to use (derived from the boundary index)
 
 	Scn(Args const& a_, int id_) : a(a_), id(id_), rng(hcomb(0x0B5, std::uint64_t(id_))) {}
@@ -191,6 +192,9 @@ struct Scn
 				pp->connected = true;
 				if (pp->cs) { error_code e2; API(pp->cs->non_blocking(true, e2)); pp->c.start_read(); pp->c.start_write(); }
 			})));
+			// operations started while the connect is in flight are parked by the library until the handshake is done;
+			// they are outstanding operations of the socket like any other
+			if (early_io && pp->cs) { pp->c.start_read(); pp->c.start_write(); }
 		};
 		if (accept_posted) do_accept(); else after(30000000, do_accept);
 		if (connect_delay_ns < 0) {} // client never arrives
@@ -484,7 +488,7 @@ struct Scn
 	}
 
 	// ---------------------------------------------------------- scenario table
-	static int count() { return 17; }
+	static int count() { return 18; }
 	void build()
 	{
 		base();
@@ -539,6 +543,8 @@ struct Scn
 					add_udp_obj("udp.tx(wait_write deferred for 20 ms)", 1, 803, false);
 				}
 				add_bystanders(); break;
+			case 17: desc = "tcp pair over a 5 ms link, the client reads and writes right after async_connect() (parked until the handshake completes), 3 kB each way"; net.def_net = {slowq}; start_sim();
+				early_io = true; add_pair(4000, 0, 3000, 3000, true); early_io = false; add_bystanders(); break;
 			case 10: desc = "tcp resolver: fast name, 1 h name, literal, queued name"; start_sim(); add_resolver(false, true); add_bystanders(); break;
 			case 11: desc = "udp resolver: 1 h name, v6 literal, queued name"; start_sim(); add_resolver(true, true); add_bystanders(); break;
 			case 12: desc = "bulk tcp through a lossy bottleneck at the receiver side (drops reported long after the send), 120 kB c->s, 40 kB s->c";
@@ -650,7 +656,7 @@ void run_case(Args const& a, std::uint64_t c)
 		+ (obj >= 0 ? " " + sc.objs[std::size_t(obj)].name : std::string(" from the next tracked handler"));
 	bool applied = false, inapplicable = false;
 	sc.variant = int(kb % 4);
-	std::size_t ops_before = 0;
+	std::size_t ops_before = 0, ops_after_apply = 0;
 	std::int64_t t_iv = -1; // virtual time of the intervention
 	auto intervene = [&]() {
 		if (applied || inapplicable) return;
@@ -662,6 +668,7 @@ void run_case(Args const& a, std::uint64_t c)
 		applied = true;
 		sc.after_intervention = true;
 		o.apply(iv);
+		ops_after_apply = sc.ops.ops.size();
 		if (iv == IV_CLOSE || iv == IV_DESTROY) o.gone = true;
 	};
 	if (k == 0) intervene();
@@ -695,6 +702,16 @@ void run_case(Args const& a, std::uint64_t c)
 	sc.runner->on_step = nullptr;
 	sc.runner->run();
 
+	// a new operation supersedes the outstanding one that occupies the same side of the object (a read and a
+	// wait-for-read both occupy the receive side): which sides did the intervention start operations on?
+	auto op_slot = [](std::string const& kind) -> std::string {
+		if (kind == "tcp.read" || kind == "tcp.wait_read") return "tcp.rx";
+		if (kind == "udp.receive" || kind == "udp.receive_from" || kind == "udp.wait_read") return "udp.rx";
+		return kind; };
+	std::set<std::string> superseded_slots;
+	if (iv == IV_SUPERSEDE)
+		for (auto const& op : sc.ops.ops)
+			if (std::size_t(op->id) >= ops_before && std::size_t(op->id) < ops_after_apply && sc.objs[std::size_t(obj)].owns && sc.objs[std::size_t(obj)].owns(*op)) superseded_slots.insert(op_slot(op->kind));
 	// ---- C04 at quiescence after the intervention: operations that cannot complete naturally
 	// must have been aborted exactly once if their object was cancelled / closed / destroyed
 	Obj& o = sc.objs[std::size_t(obj)];
@@ -714,7 +731,7 @@ void run_case(Args const& a, std::uint64_t c)
 				, fmt("%s (op %d, started at step %" PRIu64 ") was outstanding on %s when it was %s at boundary %" PRIu64 " and its handler was never invoked"
 					, op->kind.c_str(), op->id, op->step_init, o.name.c_str(), iv == IV_SUPERSEDE ? "given a new operation of the same kind" : iv_name[iv], k));
 		}
-		else if (op->ec == 0 && t_iv >= 0 && op->t_done > t_iv)
+		else if (op->ec == 0 && t_iv >= 0 && op->t_done > t_iv && (iv != IV_SUPERSEDE || superseded_slots.count(op_slot(op->kind))))
 		{
 			// an operation that had completed before the intervention has its handler queued already and runs at the very
 			// same virtual time; success at a LATER time means the operation completed after it was aborted
